@@ -50,6 +50,9 @@ type c15Op struct {
 	File     string `json:"file"`
 	Line     int    `json:"line"`
 	Defined  bool   `json:"defined"`
+	// GoEntry: the wrapper chain is the ENTRY of a fresh goroutine (`go wrapper(…)`), so that a caller skip can land on the
+	// last frames of the goroutine's stack (the entry function, runtime.goexit)
+	GoEntry bool `json:"goentry,omitempty"`
 }
 
 func init() {
@@ -180,6 +183,18 @@ func c15W7(d int, fe func(*c15Ctx), c *c15Ctx) {
 //
 //go:noinline
 func c15Start(depth int, fe func(*c15Ctx), c *c15Ctx) {
+	if depth <= 0 {
+		fe(c)
+		return
+	}
+	c15Wrappers[depth%8](depth-1, fe, c)
+}
+
+// c15GoEntry is started with `go`: it is the bottom user frame of its goroutine.
+//
+//go:noinline
+func c15GoEntry(depth int, fe func(*c15Ctx), c *c15Ctx, done chan bool) {
+	defer func() { done <- recover() != nil }()
 	if depth <= 0 {
 		fe(c)
 		return
@@ -638,6 +653,14 @@ func c15Observe(op c15Op) (o c15Obs) {
 				cleanup()
 			}
 		}()
+		if op.GoEntry {
+			done := make(chan bool)
+			go c15GoEntry(op.Depth, fe, c, done)
+			if <-done {
+				panic("front end panicked")
+			}
+			return
+		}
 		c15Start(op.Depth, fe, c)
 	}()
 	o.frames = c.frames
@@ -1139,6 +1162,12 @@ func c15Gen(r *Rand, tier string, emit func(op any)) {
 	for i := 0; i < n; i++ {
 		depth := pickDepth(i)
 		skip := pickSkip(depth)
+		goEntry := i%6 == 5
+		if goEntry {
+			// the chain is a goroutine's entry: skips that land on the entry function, on runtime.goexit and beyond
+			depth = Pick(r, []int{0, 0, 1, 2, 5})
+			skip = depth + r.Intn(3) // the closure, the wrappers, the entry function (depth+1), runtime.goexit (depth+2)
+		}
 		sug := r.Bool()
 		fe := Pick(r, c15LoggerFEs)
 		if sug {
@@ -1148,6 +1177,12 @@ func c15Gen(r *Rand, tier string, emit func(op any)) {
 		if depth > 40 && r.Chance(2, 3) {
 			op.Stack = []int{-1, 0, 1, 2, 3, 4, 5}
 			op.Min = -1
+		}
+		if goEntry {
+			op.GoEntry = true
+			op.Stack = []int{-1, 0, 1, 2, 3, 4, 5}
+			op.Min = -1
+			op.NoCaller = false
 		}
 		emit(op)
 	}
